@@ -73,6 +73,19 @@ def check_stream(H, warmup_time_of, lenient_stopping_after_end=False):
                                      "a preceding START"))
                     break
                 running = False
+        # handlers, warm-up and TIME_CHANGED only happen while the simulator is
+        # running, i.e. between a START and the following STOP
+        running = False
+        for h in items:
+            if h[0] == "ntf" and h[1] == "START":
+                running = True
+            elif h[0] == "ntf" and h[1] == "STOP":
+                running = False
+            elif not running and (_is_exec(h) or (h[0] == "ntf" and h[1] == "TIME_CHANGED")):
+                findings.append(("stream-grammar", "%s at %s happened while the simulator "
+                                 "was not running (no START notification before it, or "
+                                 "after the STOP notification)" % (h[1], h[2])))
+                break
         # TIME_CHANGED
         last_tc = None
         seg_clock = None        # clock known inside the current START..STOP
